@@ -239,6 +239,7 @@ def run(ctx):
             ftys = [f[1] for v in P.adts[ty]["variants"] for f in v["fields"]]
             ctx.ob("R5", "%s#embeds-Value" % ty.split("::")[-1], any(VAL in x for x in ftys),
                    what="%s does not carry property values as Value itself" % ty.split("::")[-1], where=P.adts[ty]["file"])
+    serde_complete(ctx, P, "R5b", list(need) + ["grafeo_engine::database::SnapshotEdge"])
 
 
 def _array_first_const(fn, op):
@@ -270,3 +271,58 @@ def _array_first_const(fn, op):
             elif rv[0] == "cast":
                 st.append(rv[2])
     return None
+
+
+
+def serde_complete(ctx, P, rule, types):
+    """the derived Serialize / Deserialize bodies of the persisted records write and read every field and every variant
+    unconditionally: one serialize_field per named field and no skip_field (serde(skip), skip_serializing_if), one
+    serialize_*_variant per variant (serde(untagged), serde(skip) on a variant), one next_element per field in the
+    sequence visitor the binary formats use (serde(skip_deserializing), serde(default))"""
+    from collections import Counter
+    for ty in dict.fromkeys(types):
+        adt = P.adts.get(ty)
+        if adt is None:
+            raise CheckerError("C16-%s: type %s not found" % (rule, ty))
+        short = ty.split("::")[-1]
+        variants = adt["variants"]
+        is_enum = adt.get("kind") == "enum" or len(variants) > 1
+        ser = [f for f in P.fns.values() if f.impl_self == ty and f.impl_trait and f.impl_trait.endswith("::Serialize") and f.kind != "closure"]
+        if len(ser) != 1:
+            raise CheckerError("C16-%s: expected one Serialize::serialize body for %s, found %d" % (rule, ty, len(ser)))
+        c = Counter(callee_name(t).split("::")[-1] for bi, t in ser[0].calls())
+        nfields = sum(len(v["fields"]) for v in variants)
+        if is_enum:
+            unit = sum(1 for v in variants if not v["fields"])
+            newt = sum(1 for v in variants if len(v["fields"]) == 1 and v["fields"][0][0].isdigit())
+            tup = sum(1 for v in variants if len(v["fields"]) > 1 and v["fields"][0][0].isdigit())
+            stru = len(variants) - unit - newt - tup
+            got = (c["serialize_unit_variant"], c["serialize_newtype_variant"], c["serialize_tuple_variant"], c["serialize_struct_variant"])
+            ok = got == (unit, newt, tup, stru) and c["skip_field"] == 0 and \
+                c["serialize_field"] == sum(len(v["fields"]) for v in variants if len(v["fields"]) > 1 or (v["fields"] and not v["fields"][0][0].isdigit()))
+            what = "variants written (unit, newtype, tuple, struct) = %s, declared %s; serialize_field calls %d, skip_field calls %d" % (
+                got, (unit, newt, tup, stru), c["serialize_field"], c["skip_field"])
+        else:
+            ok = c["serialize_field"] == nfields and c["skip_field"] == 0
+            what = "%d serialize_field calls for %d fields, %d skip_field calls" % (c["serialize_field"], nfields, c["skip_field"])
+        ctx.ob(rule, "%s#serialize-complete" % short, ok,
+               what="the Serialize impl of %s does not write every field / variant unconditionally (%s): what is read back "
+                    "differs from what was stored, or cannot be decoded by the positional binary format" % (short, what), where=ser[0].loc())
+        vis = [f for f in P.fns.values() if ("_[%s]::" % short) in f.id and f.id.split("::")[-1].split("#")[0] in ("visit_seq", "visit_enum")
+               and "::visit_enum::" not in f.id]
+        if not vis:
+            raise CheckerError("C16-%s: no derived Deserialize visitor found for %s" % (rule, ty))
+        for f in vis:
+            c = Counter(callee_name(t).split("::")[-1] for bi, t in f.calls())
+            if f.id.split("::")[-1].startswith("visit_seq"):
+                ok = c["next_element"] == nfields
+                what = "%d next_element calls for %d fields" % (c["next_element"], nfields)
+            else:
+                unit = sum(1 for v in variants if not v["fields"])
+                newt = sum(1 for v in variants if len(v["fields"]) == 1 and v["fields"][0][0].isdigit())
+                rest = len(variants) - unit - newt
+                got = (c["unit_variant"], c["newtype_variant"], c["struct_variant"] + c["tuple_variant"])
+                ok = got == (unit, newt, rest)
+                what = "variants read (unit, newtype, struct/tuple) = %s, declared %s" % (got, (unit, newt, rest))
+            ctx.ob(rule, "%s#deserialize-complete[%s]" % (short, f.id.split("::")[-1].split("#")[0]), ok,
+                   what="the Deserialize impl of %s does not read every field / variant (%s)" % (short, what), where=f.loc())
